@@ -35,6 +35,17 @@ type ob struct {
 	chk   bool   // check that every field can be dereferenced against a buffer of n bytes
 	n     int
 	bad   string // first field that cannot
+	// capacity projection (C13): when lim is set, stored-element lists are cut to these capacities and the
+	// "more" indicators are recomputed for them: Truncate(Obs(ample run), caps of the small run)
+	lim                 bool
+	hlimit, climit, plimit int
+}
+
+func (o *ob) cut(n, limit int) int {
+	if o.lim && limit >= 0 && n > limit {
+		return limit
+	}
+	return n
 }
 
 func (o *ob) key(k string) {
@@ -174,12 +185,16 @@ func (o *ob) contacts(c *sipsp.PContacts) {
 	o.u32("MaxExpires", c.MaxExpires)
 	o.u32("MinExpires", c.MinExpires)
 	o.pf("LastHVal", c.LastHVal)
-	o.bool("More", c.More())
+	if o.lim {
+		o.bool("More", c.N > o.climit)
+	} else {
+		o.bool("More", c.More())
+	}
 	o.bool("Empty", c.Empty())
 	o.bool("Parsed", c.Parsed())
 	o.key("Vals")
 	o.b = append(o.b, '[')
-	for i := 0; i < c.VNo(); i++ {
+	for i := 0; i < o.cut(c.VNo(), o.climit); i++ {
 		o.from(&c.Vals[i])
 	}
 	o.b = append(o.b, ']')
@@ -231,6 +246,7 @@ func (o *ob) hdrLst(hl *sipsp.HdrLst) {
 	if n > len(hl.Hdrs) {
 		n = len(hl.Hdrs)
 	}
+	n = o.cut(n, o.hlimit)
 	for i := 0; i < n; i++ {
 		o.hdr(&hl.Hdrs[i])
 	}
@@ -324,11 +340,15 @@ func (o *ob) uriParams(l *sipsp.URIParamsLst) {
 	o.open('{')
 	o.int("N", l.N)
 	o.int("Types", int(l.Types))
-	o.bool("More", l.More())
+	if o.lim {
+		o.bool("More", l.N > o.plimit)
+	} else {
+		o.bool("More", l.More())
+	}
 	o.bool("Empty", l.Empty())
 	o.key("Params")
 	o.b = append(o.b, '[')
-	for i := 0; i < l.PNo(); i++ {
+	for i := 0; i < o.cut(l.PNo(), o.plimit); i++ {
 		o.open('{')
 		o.key("Param")
 		o.tokParam(&l.Params[i].Param)
@@ -341,11 +361,15 @@ func (o *ob) uriParams(l *sipsp.URIParamsLst) {
 func (o *ob) uriHdrs(l *sipsp.URIHdrsLst) {
 	o.open('{')
 	o.int("N", l.N)
-	o.bool("More", l.More())
+	if o.lim {
+		o.bool("More", l.N > o.plimit)
+	} else {
+		o.bool("More", l.More())
+	}
 	o.bool("Empty", l.Empty())
 	o.key("Hdrs")
 	o.b = append(o.b, '[')
-	for i := 0; i < l.HNo(); i++ {
+	for i := 0; i < o.cut(l.HNo(), o.plimit); i++ {
 		o.tokParam((*sipsp.PTokParam)(&l.Hdrs[i]))
 	}
 	o.b = append(o.b, ']')
